@@ -107,6 +107,10 @@ def gen_locs(ck, tier):
     for depth in range(1, 5):
         yield ("depth", b"/" + b"/".join(b"d%d" % i for i in range(depth)) + b"/f")
         yield ("depth-rel", b"/".join(b"d%d" % i for i in range(depth)) + b"/f")
+    # valid UTF-8 that is not in a Unicode normal form: the recorded bytes must stay exactly these
+    for nm in ("cafe\u0301", "A\u030a", "\u212b", "\u1100\u1161", "\u00e9\u0301", "o\u0302\u0323", "\u2126", "\ufb01", "\u1e9b\u0323"):
+        yield ("unnormalised", b"/d/" + nm.encode("utf-8") + b".txt")
+        yield ("unnormalised-dir", b"/" + nm.encode("utf-8") + b"/f")
     yield ("long", b"/" + b"n" * 255)
     yield ("long-utf8", b"/" + "é".encode() * 127)
     yield ("long-esc", b"/" + b" " * 255)
